@@ -7,12 +7,15 @@
 
    Threads: 0 = Op   the spawned operation completing with value / error / done; for value the
                      fault flag says "the copy of the value into values_ throws";
-            1 = Fut  the future: dropped at once, or connected + started + consumed (the
-                     continuation is rescheduled onto this thread: it is enabled once posted);
-            2 = Stop requests stop on the awaiting receiver's stop source (program PStop only).
-   Parameter p_fixed selects the code as written (false) or with the two repairs (true):
-     drop re-reads state_ after evt_.ready (finding 7), and the continuation of the future
-     destroys the stop callback before it looks at state_ / deletes the shared state (finding 13).
+            1 = Fut  the future: dropped at once (PDrop); connected + started + consumed (PAwait,
+                     PStop: the continuation is rescheduled onto this thread, it is enabled once
+                     posted); or connected and destroyed without being started (PConnDrop);
+            2 = Stop requests stop on the awaiting receiver's stop source (PStop, PConnDrop).
+   Parameter p_fixed selects the code as written (false) or with the three repairs (true):
+     drop re-reads state_ after evt_.ready (finding 7); the continuation of the future destroys
+     the stop callback before it looks at state_ / deletes the shared state (finding 13); drop
+     negotiates the deletion when it finds abandoned / complete instead of calling
+     std::terminate (finding 14: the stop callback is registered by connect, not by start).
    Ghost state: which union member is constructed, on which members a destructor ran, deleted,
    freed (checked by every step that touches the shared state: uaf), who won the race from init.
    Executable definitions only. *)
@@ -22,7 +25,7 @@ Import ListNotations.
 Module Future.
 
 Inductive outcome := OVal | OErr | ODone.
-Inductive prog := PDrop | PAwait | PStop.
+Inductive prog := PDrop | PAwait | PStop | PConnDrop.
 (* values of state_ ; FPoison is what freed (poisoned) memory reads as *)
 Inductive fstate := FInit | FAband | FValue | FError | FDoneS | FComplete | FPoison.
 (* values of evt_.state_ : null, the waiting operation of the future, signalled, poisoned *)
@@ -74,6 +77,8 @@ Inductive fpc :=
 | DCas                        (* CAS init -> complete, :294 *)
 | DReady (seen : fstate)      (* spin on evt_.ready, :326 ; then deleter_ seen, :330 *)
 | DReload                     (* fixed only: re-read state_ , then deleter_ *)
+| DNeg                        (* fixed only: drop found abandoned: CAS abandoned -> complete *)
+| DDelC                       (* fixed only: drop found complete: load-acquire, then deleter_ *)
 | WReg                        (* connect: the stop callback registers, spawn_future.hpp:674-683 *)
 | WRegRel
 | WAb (a : apc)               (* stop already requested: abandon runs inline *)
@@ -96,10 +101,11 @@ Inductive spc :=
 
 Record st := { cfg : params; m : mem; g : ghost; op : opc; fp : fpc; sp : spc }.
 
-Inductive cassite := CsComplete | CsNegotiate | CsDrop | CsAbandon | CsConsume.
+Inductive cassite := CsComplete | CsNegotiate | CsDrop | CsAbandon | CsConsume | CsDropNeg.
 
 Inductive ev :=
-| EStL (v : fstate)                                 (* state_.load *)
+| EStL (v : fstate)                                 (* state_.load relaxed *)
+| EStLa (v : fstate)                                (* state_.load acquire *)
 | EStS (v : fstate)                                 (* state_.store *)
 | EStC (site : cassite) (old new : fstate) (ok : bool)
 | EEvX (old : evst)                                 (* evt_.set: exchange to signalled *)
@@ -182,7 +188,7 @@ Definition init (p : params) : st :=
              roots := []; bad := false |};
      op := OCas;
      fp := match p_prog p with PDrop => DLoad | _ => WReg end;
-     sp := match p_prog p with PStop => SIdle | _ => SFin end |}.
+     sp := match p_prog p with PStop | PConnDrop => SIdle | _ => SFin end |}.
 
 Definition desired (o : outcome) : fstate :=
   match o with OVal => FValue | OErr => FError | ODone => FDoneS end.
@@ -303,9 +309,18 @@ Definition finish (r : result) (s : st) (evs : list ev) : st * list ev :=
   if negb (p_fixed (cfg s)) && cb_reg (m s) then (set_fp (WDeregAcq r) s, evs)
   else (set_fp FFin (add_root r s), evs ++ [ERoot r]).
 
+Definition is_conndrop (s : st) : bool := match p_prog (cfg s) with PConnDrop => true | _ => false end.
+
+(* PConnDrop: the operation state of the future is destroyed without having been started: first
+   the stop callback (let_value_with's state_), then the op_handle whose deleter calls drop *)
 Definition after_dereg (r : result) (s : st) (evs : list ev) : st * list ev :=
-  if p_fixed (cfg s) then (set_fp WLoad s, evs)
+  if is_conndrop s then (set_fp DLoad s, evs)
+  else if p_fixed (cfg s) then (set_fp WLoad s, evs)
   else (set_fp FFin (add_root r s), evs ++ [ERoot r]).
+
+(* where thread Fut goes once connect has returned *)
+Definition after_connect (s : st) : fpc :=
+  if is_conndrop s then (if cb_reg (m s) then WDeregAcq RDone else DLoad) else WWaitLoad.
 
 Definition consume_load (s : st) : st * list ev :=
   let s0 := touch s in
@@ -333,6 +348,12 @@ Definition step_fut (s : st) : option (st * list ev) :=
       match v with
       | FInit => Some (set_fp DSrcSet (Gh (set_drop_init true) s0), [EStL v])
       | FValue | FError | FDoneS => Some (set_fp (DReady v) s0, [EStL v])
+      | FAband =>
+          if p_fixed (cfg s) then Some (set_fp DNeg s0, [EStL v])
+          else Some (set_fp FFin (flag_bad s0), [EStL v; ETerminate])
+      | FComplete =>
+          if p_fixed (cfg s) then Some (set_fp DDelC s0, [EStL v])
+          else Some (set_fp FFin (flag_bad s0), [EStL v; ETerminate])
       | _ => Some (set_fp FFin (flag_bad s0), [EStL v; ETerminate])
       end
   | DSrcSet => Some (set_fp DSrcEnd (Gh (set_src_stop true) (touch s)), [ESrcSet])
@@ -356,16 +377,29 @@ Definition step_fut (s : st) : option (st * list ev) :=
       let s0 := touch s in
       let v := state (m s0) in
       let (s1, evs) := do_delete v s0 in Some (set_fp FFin s1, EStL v :: evs)
+  | DNeg =>
+      let s0 := touch s in
+      match state (m s0) with
+      | FAband => Some (set_fp FFin (M (set_state FComplete) s0), [EStC CsDropNeg FAband FComplete true])
+      | FComplete =>
+          let (s1, evs) := do_delete FComplete s0 in
+          Some (set_fp FFin s1, EStC CsDropNeg FComplete FComplete false :: evs)
+      | v => Some (set_fp FFin (flag_bad s0), [EStC CsDropNeg v FComplete false; ETerminate])
+      end
+  | DDelC =>
+      let s0 := touch s in
+      let v := state (m s0) in
+      let (s1, evs) := do_delete v s0 in Some (set_fp FFin s1, EStLa v :: evs)
   | WReg =>
       if ext_stop (m s) then Some (set_fp (WAb ACas) s, [EExtObs (ext_locked (m s))])
       else if ext_locked (m s) then None
       else Some (set_fp WRegRel (M (fun x => set_ext_locked true (set_cb_linked true (set_cb_reg true x))) s),
                  [EExtAcq true 0 2])
-  | WRegRel => Some (set_fp WWaitLoad (M (set_ext_locked false) s), [EExtRel 0])
+  | WRegRel => Some (set_fp (after_connect s) (M (set_ext_locked false) s), [EExtRel 0])
   | WAb a =>
       match abandon_step a s with
       | (s1, evs, Some a') => Some (set_fp (WAb a') s1, evs)
-      | (s1, evs, None) => Some (set_fp WWaitLoad s1, evs)
+      | (s1, evs, None) => Some (set_fp (after_connect s1) s1, evs)
       end
   | WWaitLoad =>
       let s0 := touch s in
